@@ -10,6 +10,7 @@ import (
 	"fmt"
 	"os"
 	"path/filepath"
+	"sort"
 	"strconv"
 	"strings"
 	"syscall"
@@ -398,21 +399,6 @@ func applySetUpdates(dir string, opts GlobalOptions, id string, updates map[stri
 	lockPath := filepath.Join(dir, "lock")
 	eventsPath := getEventsPath(dir)
 
-	// result.path + result.summary: the result event is recorded in the same
-	// locked step as the other fields, so the command applies as a whole.
-	resultPath, hasPath := updates["result.path"]
-	resultSummary, hasSummary := updates["result.summary"]
-	attachResult := hasPath || hasSummary
-	if attachResult {
-		if !hasPath {
-			return errors.New("result.summary requires result.path=")
-		}
-		if !hasSummary {
-			return errors.New("result.path requires result.summary=")
-		}
-		delete(updates, "result.path")
-		delete(updates, "result.summary")
-	}
 	repoDir := filepath.Dir(dir)
 
 	return withLock(lockPath, syscall.LOCK_EX, func() error {
@@ -455,29 +441,9 @@ func applySetUpdates(dir string, opts GlobalOptions, id string, updates map[stri
 
 		now := time.Now().UTC()
 
-		var events []Event
-		if attachResult {
-			resultEvent, err := buildResultEvent(repoDir, task, resultSummary, resultPath, now)
-			if err != nil {
-				return err
-			}
-			events = append(events, resultEvent)
-		}
-
-		// Build events using pure function, passing I/O-dependent body resolver
-		setEvents, remainingUpdates, err := buildSetEvents(id, task, updates, agentID, now, identityBodyResolver)
+		events, err := buildUpdateEvents(repoDir, task, updates, agentID, now)
 		if err != nil {
 			return err
-		}
-		events = append(events, setEvents...)
-
-		// Check for any unhandled keys
-		if len(remainingUpdates) > 0 {
-			var unknown []string
-			for key := range remainingUpdates {
-				unknown = append(unknown, key)
-			}
-			return fmt.Errorf("unknown keys: %s", strings.Join(unknown, ", "))
 		}
 
 		if err := appendEvents(eventsPath, events); err != nil {
@@ -488,6 +454,54 @@ func applySetUpdates(dir string, opts GlobalOptions, id string, updates map[stri
 		}
 		return nil
 	})
+}
+
+// buildUpdateEvents turns the field updates for task into events: an optional
+// result attachment first, then title/body/epic/claim/state. The caller holds
+// the lock and appends the events in one step, so the updates apply as a whole.
+func buildUpdateEvents(repoDir string, task *Task, updates map[string]string, agentID string, now time.Time) ([]Event, error) {
+	var events []Event
+
+	// result.path + result.summary
+	resultPath, hasPath := updates["result.path"]
+	resultSummary, hasSummary := updates["result.summary"]
+	if hasPath || hasSummary {
+		if !hasPath {
+			return nil, errors.New("result.summary requires result.path=")
+		}
+		if !hasSummary {
+			return nil, errors.New("result.path requires result.summary=")
+		}
+		resultEvent, err := buildResultEvent(repoDir, task, resultSummary, resultPath, now)
+		if err != nil {
+			return nil, err
+		}
+		events = append(events, resultEvent)
+		rest := make(map[string]string, len(updates))
+		for key, value := range updates {
+			if key != "result.path" && key != "result.summary" {
+				rest[key] = value
+			}
+		}
+		updates = rest
+	}
+
+	// Build events using pure function, passing I/O-dependent body resolver
+	setEvents, remainingUpdates, err := buildSetEvents(task.ID, task, updates, agentID, now, identityBodyResolver)
+	if err != nil {
+		return nil, err
+	}
+
+	// Check for any unhandled keys
+	if len(remainingUpdates) > 0 {
+		var unknown []string
+		for key := range remainingUpdates {
+			unknown = append(unknown, key)
+		}
+		sort.Strings(unknown)
+		return nil, fmt.Errorf("unknown keys: %s", strings.Join(unknown, ", "))
+	}
+	return append(events, setEvents...), nil
 }
 
 // buildSetEvents generates the event list for a set command.
